@@ -343,10 +343,24 @@ struct FnEmitter {
     // parameters bound by non-const lvalue reference (callee may write them)
     std::vector<int> refs;
     std::vector<std::string> ptypes;
+    // forwarding references (T&& / Args&&... of the pattern) collapse to T& when
+    // given an lvalue; they are perfect-forwarding plumbing, not out-parameters
+    const FunctionDecl* Pat = Callee->getTemplateInstantiationPattern();
+    if (!Pat) if (auto* PT = Callee->getPrimaryTemplate()) Pat = PT->getTemplatedDecl();
+    auto isFwd = [&](unsigned i) -> bool {
+      if (!Pat || Pat->getNumParams() == 0) return false;
+      unsigned j = i < Pat->getNumParams() ? i : Pat->getNumParams() - 1;
+      QualType T = Pat->getParamDecl(j)->getType();
+      if (auto* PE = T->getAs<PackExpansionType>()) T = PE->getPattern();
+      else if (i >= Pat->getNumParams()) return false;
+      if (!T->isRValueReferenceType()) return false;
+      QualType Pointee = T->getPointeeType();
+      return Pointee->getAs<TemplateTypeParmType>() != nullptr && !Pointee.isConstQualified();
+    };
     for (unsigned i = 0; i < Callee->getNumParams(); i++) {
       QualType PT = Callee->getParamDecl(i)->getType();
       ptypes.push_back(C.tstr(PT));
-      if (PT->isLValueReferenceType() && !PT->getPointeeType().isConstQualified())
+      if (PT->isLValueReferenceType() && !PT->getPointeeType().isConstQualified() && !isFwd(i))
         refs.push_back((int)i);
     }
     if (!refs.empty()) o.ids("refparams", refs);
